@@ -101,6 +101,7 @@ type Case struct {
 	PIAKI         int  // 0 none, 1 key id (20), 2 short key id, 3 key id + issuer + serial, 4 long key id
 	PIAKICrit     bool
 	PIEKUShape    int // where the CT EKU sits among the pre-issuer's EKUs
+	IssuerEKU     int  // EKUs of the final issuer (and of the sibling issuer): 0 none, 1 serverAuth, 2 anyExtendedKeyUsage, 3 anyExtendedKeyUsage + others, 4 serverAuth + clientAuth
 	IssuerCTEKU   bool // with a pre-issuer only: the final issuer itself lists the CT EKU next to other EKUs (EKU-constrained CA)
 	IssuerSKI     int // subjectKeyIdentifier of the final issuer: 0 absent, 1 key-derived, 2.. one of skiPool (independent of the key)
 	PISKI         int // same for the pre-issuer
@@ -395,6 +396,7 @@ func genCase(t *rapid.T, signedAnchor bool) Case {
 	c.IssuerKeyKind = rapid.SampledFrom(issuerKinds).Draw(t, "isskind")
 	c.IssuerKeyIdx = rapid.IntRange(0, 5).Draw(t, "issidx")
 	c.SigAlg = rapid.IntRange(0, 2).Draw(t, "sigalg")
+	c.IssuerEKU = rapid.IntRange(0, 4).Draw(t, "isseku")
 	c.IssuerSKI = rapid.IntRange(0, 1+len(skiPool)).Draw(t, "issski")
 	c.PISKI = rapid.IntRange(0, 1+len(skiPool)).Draw(t, "piski")
 	c.SiblingOff = rapid.IntRange(0, 4).Draw(t, "siboff")
@@ -808,21 +810,42 @@ func Build(c *Case, realSig bool) *World {
 	w.IName = nameOf(c.IssuerName)
 	w.KeyHash = sha256.Sum256(w.IssuerKey.SPKI)
 
-	caExts := func(k *keys.Key) []pki.Ext {
-		return append([]pki.Ext{pki.BasicConstraints(true, -1, true), pki.KeyUsage(pki.KUKeyCertSign, pki.KUCRLSign)}, skiExt(c.IssuerSKI, k)...)
+	// EKUs of the issuing CA. Only the CT EKU (RFC 6962 s3.1) makes a CA a precertificate signing
+	// certificate; anyExtendedKeyUsage does not.
+	var issuerEKUs [][]int
+	switch c.IssuerEKU {
+	case 1:
+		issuerEKUs = [][]int{pki.OIDEKUServerAuth}
+	case 2:
+		issuerEKUs = [][]int{pki.OIDEKUAny}
+	case 3:
+		issuerEKUs = [][]int{pki.OIDEKUServerAuth, pki.OIDEKUAny, pki.OIDEKUOCSP}
+	case 4:
+		issuerEKUs = [][]int{pki.OIDEKUServerAuth, pki.OIDEKUClientAuth}
 	}
-	iExts := caExts(w.IssuerKey)
+	caExts := func(k *keys.Key, ekus [][]int) []pki.Ext {
+		out := append([]pki.Ext{pki.BasicConstraints(true, -1, true), pki.KeyUsage(pki.KUKeyCertSign, pki.KUCRLSign)}, skiExt(c.IssuerSKI, k)...)
+		if len(ekus) > 0 {
+			out = append(out, pki.EKU(ekus...))
+		}
+		return out
+	}
+	finalEKUs := issuerEKUs
 	if c.PreIssuer && c.IssuerCTEKU {
 		// An EKU-constrained CA that must list the CT EKU in order to issue the pre-issuer below it. It is
 		// still the issuer of the final certificate. (Without a pre-issuer below it such a CA would itself
 		// be the "precertificate signing certificate" of RFC 6962 s3.1 - that shape is not generated.)
-		iExts = append(iExts, pki.EKU(pki.OIDEKUServerAuth, pki.OIDEKUClientAuth, pki.OIDEKUCT))
+		finalEKUs = append(append([][]int{}, issuerEKUs...), pki.OIDEKUCT)
+		if len(issuerEKUs) == 0 {
+			finalEKUs = [][]int{pki.OIDEKUServerAuth, pki.OIDEKUClientAuth, pki.OIDEKUCT}
+		}
 	}
+	iExts := caExts(w.IssuerKey, finalEKUs)
 	w.I = caCert(w.IName, w.IName, w.IssuerKey, w.IssuerKey, w.Alg, 1000, iExts)
 	// the sibling: another CA with the same name and the same SKI selection but a different key of the same kind
 	ipool := len(keys.Kind(c.IssuerKeyKind))
 	w.SibKey = keys.Pick(c.IssuerKeyKind, c.IssuerKeyIdx+1+c.SiblingOff%(ipool-1))
-	w.SibI = caCert(w.IName, w.IName, w.SibKey, w.SibKey, w.Alg, 1001, caExts(w.SibKey))
+	w.SibI = caCert(w.IName, w.IName, w.SibKey, w.SibKey, w.Alg, 1001, caExts(w.SibKey, issuerEKUs))
 
 	signerOfP := w.IssuerKey
 	issuerOfP := w.IName
@@ -859,7 +882,13 @@ func Build(c *Case, realSig bool) *World {
 		// the same certificate without the CT EKU (other EKUs kept, or no EKU extension at all)
 		var without []pki.Ext
 		without = append(without, base...)
-		if c.PIEKUShape != 0 {
+		switch c.PIEKUShape {
+		case 0: // no EKU extension at all
+		case 2:
+			without = append(without, pki.EKU(pki.OIDEKUAny)) // anyExtendedKeyUsage is not the CT EKU
+		case 3:
+			without = append(without, pki.EKU(pki.OIDEKUServerAuth, pki.OIDEKUAny))
+		default:
 			without = append(without, pki.EKU(pki.OIDEKUServerAuth, pki.OIDEKUClientAuth))
 		}
 		without = append(without, tail...)
@@ -1089,6 +1118,7 @@ func (w *World) classify(c *Case, v *harness.Verdict) {
 	if c.PreIssuer && c.IssuerCTEKU {
 		v.Class("final-issuer-has-ct-eku")
 	}
+	v.Class("issuer-eku=" + []string{"none", "serverAuth", "any", "any+others", "serverAuth+clientAuth"}[c.IssuerEKU%5])
 	if c.PreIssuer && !bytes.Equal(w.IssuerOfP.DER(), w.PISubject.DER()) {
 		v.Class("precert-respells-preissuer-name")
 	}
